@@ -190,7 +190,12 @@ struct Shared {
     probes: std::sync::atomic::AtomicU64,
     probes_verified: std::sync::atomic::AtomicU64,
     c10: bool,
+    /// index into HOST_PORTS of the listener the current history's agent talks to; requests arriving on any
+    /// other listener come from the agent of an earlier history (sent just before it was stopped) and are reset
+    active: std::sync::atomic::AtomicUsize,
+    probe_outstanding: std::sync::atomic::AtomicBool,
 }
+const HOST_PORTS: [u16; 4] = [80, 8081, 8082, 8083];
 
 const GOALSTATE: &str = r#"<?xml version="1.0" encoding="utf-8"?><GoalState><Version>2015-04-05</Version><Incarnation>16</Incarnation><Machine><ExpectedState>Started</ExpectedState><StopRolesDeadlineHint>300000</StopRolesDeadlineHint><LBProbePorts><Port>16001</Port></LBProbePorts><ExpectHealthReport>FALSE</ExpectHealthReport></Machine><Container><ContainerId>c</ContainerId><RoleInstanceList><RoleInstance><InstanceId>i</InstanceId><State>Started</State><Configuration><HostingEnvironmentConfig>http://168.63.129.16:80/machine/c/i?comp=config&amp;type=hostingEnvironmentConfig&amp;incarnation=16</HostingEnvironmentConfig><SharedConfig>http://168.63.129.16:80/machine/c/i?comp=config&amp;type=sharedConfig&amp;incarnation=16</SharedConfig><ExtensionsConfig>http://168.63.129.16:80/machine/c/i?comp=config&amp;type=extensionsConfig&amp;incarnation=16</ExtensionsConfig><FullConfig>http://168.63.129.16:80/machine/c/i?comp=config&amp;type=fullConfig&amp;incarnation=16</FullConfig><Certificates>http://168.63.129.16:80/machine/c/i?comp=certificates&amp;incarnation=16</Certificates><ConfigName>x.xml</ConfigName></Configuration></RoleInstance></RoleInstanceList></Container></GoalState>"#;
 
@@ -203,22 +208,33 @@ fn probe(sh: &Arc<Shared>, at: &str) {
     }
     let Some((handle, kk)) = sh.agent.lock().unwrap().clone() else { return };
     *PROBE_AT.lock().unwrap() = at.to_string();
+    let port = HOST_PORTS[sh.active.load(std::sync::atomic::Ordering::SeqCst)];
+    sh.probe_outstanding.store(true, std::sync::atomic::Ordering::SeqCst);
     let (tx, rx) = std::sync::mpsc::channel();
     handle.spawn(async move {
-        let wsc = gpa_harness::host_clients::wire_server_client::WireServerClient::new("168.63.129.16", 80, kk);
+        let wsc = gpa_harness::host_clients::wire_server_client::WireServerClient::new("168.63.129.16", port, kk);
         let _ = wsc.get_goalstate().await;
         let _ = tx.send(());
     });
     sh.probes.fetch_add(1, std::sync::atomic::Ordering::SeqCst);
-    if rx.recv_timeout(Duration::from_secs(10)).is_err() {
+    if rx.recv_timeout(Duration::from_secs(30)).is_err() {
         sh.sign_problems.lock().unwrap().push(("signer-stuck".into(), format!("a signed host call started while the key keeper waited for the answer to {at} did not finish")));
     }
+    sh.probe_outstanding.store(false, std::sync::atomic::Ordering::SeqCst);
 }
 static PROBE_AT: Mutex<String> = Mutex::new(String::new());
 
-fn start_host(sh: Arc<Shared>) -> MockHost {
-    let h = MockHost::start("wireserver", world::WS).unwrap_or_else(|e| vcommon::result::machinery(&format!("cannot bind {}: {e} (not inside bin/ns?)", world::WS)));
+fn start_hosts(sh: &Arc<Shared>) -> Vec<MockHost> {
+    (0..HOST_PORTS.len()).map(|i| start_host(sh.clone(), i)).collect()
+}
+
+fn start_host(sh: Arc<Shared>, my_idx: usize) -> MockHost {
+    let addr = format!("168.63.129.16:{}", HOST_PORTS[my_idx]);
+    let h = MockHost::start(&format!("wireserver{my_idx}"), &addr).unwrap_or_else(|e| vcommon::result::machinery(&format!("cannot bind {addr}: {e} (not inside bin/ns?)")));
     h.set_responder(Arc::new(move |m: &Msg, _c, _i| {
+        if sh.active.load(std::sync::atomic::Ordering::SeqCst) != my_idx {
+            return Action::Reset; // a request of an agent that has been stopped
+        }
         let t = m.target().to_string();
         if t.starts_with("/secure-channel/status") {
             // park until released
@@ -308,7 +324,7 @@ fn start_host(sh: Arc<Shared>) -> MockHost {
                     Action::Reply(vec![simple_response(200, &[], b"")])
                 }
             }
-        } else if t.starts_with("/machine") {
+        } else if t.starts_with("/machine") && sh.c10 && sh.probe_outstanding.load(std::sync::atomic::Ordering::SeqCst) {
             // a signer probe: id and MAC must belong together (any key the host ever issued may be named)
             let issued = sh.model.lock().unwrap().issued;
             let mut keys = HashMap::new();
@@ -367,6 +383,7 @@ impl Agent {
         let _ = std::fs::remove_dir_all(LOG_DIR);
         let _ = std::fs::create_dir_all(LOG_DIR);
         let (tx, rx) = std::sync::mpsc::channel();
+        let port = HOST_PORTS[sh.active.load(std::sync::atomic::Ordering::SeqCst)];
         let join = std::thread::Builder::new()
             .name("subject".into())
             .spawn(move || {
@@ -378,7 +395,7 @@ impl Agent {
                     r.update_bpf_object(bpf).await.unwrap();
                     r.set_local_port(3080).await.unwrap();
                     tx.send((tokio::runtime::Handle::current(), shared.clone(), policy)).unwrap();
-                    let kk = KeyKeeper::new("http://168.63.129.16/".parse().unwrap(), KEYS_DIR.into(), LOG_DIR.into(), Duration::from_secs(15), &shared);
+                    let kk = KeyKeeper::new(format!("http://168.63.129.16:{port}/").parse().unwrap(), KEYS_DIR.into(), LOG_DIR.into(), Duration::from_secs(15), &shared);
                     kk.poll_secure_channel_status().await;
                 });
             })
@@ -418,7 +435,7 @@ impl Agent {
         let policy_map: Vec<String> = self.policy.dump().iter().map(|(k, _)| format!("{}.{}.{}.{}:{}", k[0], k[1], k[2], k[3], u16::from_be_bytes([k[16], k[17]]))).collect();
         AgentObs { state, key_guid, key_value, rules, decisions, rule_ids, key_files, policy_map }
     }
-    fn stop(mut self, sh: &Shared, host: &MockHost) {
+    fn stop(mut self, sh: &Shared, hosts: &[MockHost]) {
         *sh.agent.lock().unwrap() = None;
         self.shared.cancel_cancellation_token();
         {
@@ -438,6 +455,7 @@ impl Agent {
         }
         // the agent is gone; requests it sent just before dying are answered with a reset while
         // `shutdown` is still set, so that none of them can take a permit of the next history
+        let host = &hosts[sh.active.load(std::sync::atomic::Ordering::SeqCst)];
         let t = Instant::now();
         while host.open_connections() > 0 {
             if t.elapsed() > Duration::from_secs(10) {
@@ -526,7 +544,9 @@ fn ev_json(e: &Ev) -> Value {
 }
 
 /// replay a history of host events from scratch: one agent poll after each event
-fn run_history(sh: &Arc<Shared>, host: &MockHost, hist: &[Ev]) -> HistOut {
+fn run_history(sh: &Arc<Shared>, host: &[MockHost], hist: &[Ev]) -> HistOut {
+    // a fresh listener for every history: whatever the previous agent still had in flight goes to the old one
+    sh.active.store((sh.active.load(std::sync::atomic::Ordering::SeqCst) + 1) % HOST_PORTS.len(), std::sync::atomic::Ordering::SeqCst);
     let (bpf, policy_fd) = BPF.get().expect("bpf").clone();
     *sh.model.lock().unwrap() = HostModel::new();
     sh.attest_problems.lock().unwrap().clear();
@@ -661,8 +681,8 @@ fn main() {
     let thorough = is_thorough();
     let c10 = std::env::var("VERIF_PROPERTY").map(|p| p == "C10").unwrap_or(false);
     let mut res = EngineResult::new(if c10 { "C10" } else { "C09" });
-    let sh = Arc::new(Shared { model: Mutex::new(HostModel::new()), gate: Mutex::new(Gate { parked: false, permits: 0, shutdown: false, polls_answered: 0 }), cv: Condvar::new(), attest_problems: Mutex::new(vec![]), log: Mutex::new(vec![]), agent: Mutex::new(None), sign_problems: Mutex::new(vec![]), probes: Default::default(), probes_verified: Default::default(), c10 });
-    let _host = if vcommon::result::worker().is_some() || std::env::var("VERIF_NO_SHARD").is_ok() || std::env::var("VERIF_REPLAY").is_ok() { Some(start_host(sh.clone())) } else { None };
+    let sh = Arc::new(Shared { model: Mutex::new(HostModel::new()), gate: Mutex::new(Gate { parked: false, permits: 0, shutdown: false, polls_answered: 0 }), cv: Condvar::new(), attest_problems: Mutex::new(vec![]), log: Mutex::new(vec![]), agent: Mutex::new(None), sign_problems: Mutex::new(vec![]), probes: Default::default(), probes_verified: Default::default(), c10, active: Default::default(), probe_outstanding: Default::default() });
+    let _host = if vcommon::result::worker().is_some() || std::env::var("VERIF_NO_SHARD").is_ok() || std::env::var("VERIF_REPLAY").is_ok() { Some(start_hosts(&sh)) } else { None };
     {
         let bpf = BpfObject::from_ebpf_file(&world::ebpf_object_path()).unwrap_or_else(|e| vcommon::result::machinery(&format!("bpf object: {e}")));
         let fd = map_fd(&bpf, "policy_map");
@@ -696,7 +716,7 @@ fn main() {
             u
         };
         let hist: Vec<Ev> = want.iter().map(|w| *universe.iter().find(|e| format!("{:?}", e) == *w).unwrap_or_else(|| vcommon::result::machinery("unknown event in replay"))).collect();
-        let o = run_history(&sh, _host.as_ref().unwrap(), &hist);
+        let o = run_history(&sh, _host.as_ref().unwrap().as_slice(), &hist);
         for (sig, what) in o.problems {
             res.violation(&sig, &what, doc["case"].clone());
         }
@@ -722,8 +742,8 @@ fn main() {
     // determinism gate
     if wi == 0 {
         let h = vec![Ev::V1(1), Ev::Fault(Fault::Attest500), Ev::Noop, Ev::SetRule(1, Rule::Enforce), Ev::Rotate];
-        let a = run_history(&sh, _host.as_ref().unwrap(), &h);
-        let b = run_history(&sh, _host.as_ref().unwrap(), &h);
+        let a = run_history(&sh, _host.as_ref().unwrap().as_slice(), &h);
+        let b = run_history(&sh, _host.as_ref().unwrap().as_slice(), &h);
         if a.canon != b.canon || a.problems != b.problems {
             vcommon::result::machinery(&format!("determinism gate failed:\n{}\n{}", a.canon, b.canon));
         }
@@ -750,7 +770,7 @@ fn main() {
             }
             let mut h2 = h.clone();
             h2.push(*e);
-            let o = run_history(&sh, _host.as_ref().unwrap(), &h2);
+            let o = run_history(&sh, _host.as_ref().unwrap().as_slice(), &h2);
             transitions += 1;
             polls += o.polls;
             maxd = maxd.max(h2.len());
@@ -807,7 +827,7 @@ fn main() {
             }
             let mut h2 = b.clone();
             h2.push(Ev::Fault(Fault::StatusShape(shape)));
-            let o = run_history(&sh, _host.as_ref().unwrap(), &h2);
+            let o = run_history(&sh, _host.as_ref().unwrap().as_slice(), &h2);
             transitions += 1;
             shape_histories += 1;
             polls += o.polls;
